@@ -430,16 +430,23 @@ theorem refresh_outside_latency_agrees {a b : Int} (cfg : Cfg) (x : CfgX) (enc :
 /-- the non-metadata leaves of a target -/
 def dataPart (t : Target) : PMap Noti := t.tree.filter (fun kv => !isMetaKey kv.1)
 
-/-- **runX_data_agrees** (stated, not proved).  Along every history of the calls of `Model/Cache.lean`,
-for a cache with any latency windows, every registered target of the wired run has the same data leaves,
-sync flag and latest timestamp as in `State.run` — the latency wiring never changes what data subscribers
-see.  Proved: every call that is not a refresh does to the `State` exactly what `State.step` does
-(`Cache.stepX_s`), and a refresh agrees outside the latency paths (`refresh_outside_latency_agrees`).
-Missing for the history form: after the first refresh the two runs continue from states that differ under
-`meta/latency` (and, legitimately, in counters: `targetLeavesStale` on a backwards clock step, `targetSize`
-after `UpdateSize`), so every function of `Model/Cache.lean` has to be shown to respect "equal outside
-`meta/latency`, same sync / latest" — a congruence lemma per function (`updateCore`, `removeCore` with
-wildcard deletes that also remove latency leaves, `generateMetaUpdates`, `reset`), not done here. -/
+/-- **runX_data_agrees** (stated; as stated it is **false** — `runX_data_agrees_false` — and proved in a restricted
+form as `runX_data_agrees_partial`, both in `Props/C15Agree.lean`).
+Along every history of the calls of `Model/Cache.lean`, for a cache with any latency windows, every
+registered target of the wired run has the same data leaves, sync flag and latest timestamp as in
+`State.run` — the latency wiring never changes what data subscribers see.  Proved here: every call that is
+not a refresh does to the `State` exactly what `State.step` does (`Cache.stepX_s`), and a refresh agrees
+outside the latency paths (`refresh_outside_latency_agrees`).  After the first refresh the two runs continue
+from states that differ under `meta/latency` and, legitimately, in counters (`targetLeavesStale` on a
+backwards clock step, hence in the leaf `meta/targetLeavesStale` after the next refresh).
+`Props/C15Agree.lean` has the relation that *is* preserved (`AgreeData`: same data leaves, latest, name), a
+congruence lemma for every function of `Model/Cache.lean`, and the history theorem for the data leaves and
+the latest timestamp over histories whose client updates are not addressed under `meta/…` (`HistOutside`).
+Not proved: the sync-flag clause (a refresh re-derives `Target.sync` from the metadata value `sync` and the
+leaf `meta/sync`; the relation would have to track both), and histories with client updates under `meta/…`
+(there the acceptance of the update depends on leaves that differ between the runs: a target that itself
+writes `meta/latency/window/<w>/max` after a refresh is answered "stale" with the window and "added" without,
+which changes the latest timestamp — the decided witness `histMeta_latest_differs`). -/
 def runX_data_agrees : Prop :=
   ∀ (env : Env) (cfg : Cfg) (x : CfgX) (ops : List Cache.Op) (name : String),
     (∀ op ∈ ops, op.valid) →
